@@ -14,7 +14,8 @@ EXPLANATION = (
     "(into_par_iter, map, collect) lie between the surviving buckets and the outputs, and one aux entry is "
     "produced per report of a bucket; (R5) the closure run on the rayon pool captures only &self and receives an "
     "owned bucket: no &mut capture, lock, atomic or cell, so the result cannot depend on the schedule; (R6) the "
-    "decryption key is derive_ske_key(recovered message, self.epoch); (R7) a measurement-equality test over the "
+    "decryption key is derive_ske_key(recovered message, self.epoch) and Ciphertext::decrypt runs the same keyed Strobe "
+    "operation sequence as Ciphertext::new (C01.R2); (R7) a measurement-equality test over the "
     "bucket precedes the output; (R9) the revealed measurement is exactly the first length-prefixed chunk of the "
     "decrypted payload; (R8) optional-chunk agreement with the writer (aux chunk present iff aux is Some): the "
     "reader must return Some iff a second chunk is present - on the pinned tree it additionally requires the "
@@ -187,7 +188,11 @@ def run(ctx):
     dc = [e for e in Q.calls(eng, "sta_rs::Ciphertext::decrypt")]
     ok6b = len(dc) == 1 and Q.consts(Q.leaves(dc[0]["argv"][2])) == {"star_encrypt"}
     ctx.add("C18.R6", AS + "::recover_measurements#decrypt-label", ok6b, "decryption must use the client's cipher label \"star_encrypt\"", dc[0]["at"] if dc else at)
-    ctx.floor("C18.R6", 2)
+    # the server's decryption runs the very transcript the client encrypted under (C01.R2 re-run: a decryptor that splits,
+    # re-keys or re-labels the stream returns garbage for some payload sizes)
+    from . import c01
+    c01.payload_cipher_agreement(ctx, "C18.R6")
+    ctx.floor("C18.R6", 6)
 
     # ---- R7 equality check before output ------------------------------------------------------------------------------------
     div = [e for e in Q.calls(eng, None) if e["diverges"] and e["fn"].endswith("recover_measurements")]
